@@ -38,6 +38,12 @@ Cls ParseCls(const std::string& s)
 
 constexpr CAmount MAXM = int64_t{21000000} * 100000000;
 
+// The generator (or the model) got something wrong while preparing an action: nothing about the node is concluded from
+// it. The action is abandoned, counted (`generator_aborted_actions`) and logged; the history goes on.
+struct GenError : std::runtime_error {
+    using std::runtime_error::runtime_error;
+};
+
 // diagnostics only (never decides anything): accumulated wall time per phase when --p prof=1
 struct Prof {
     static bool& On() { static bool on = false; return on; }
@@ -236,7 +242,7 @@ struct Hist {
         if (!rb->SelfValid() && led.ChainValid(parent)) {
             std::string why;
             for (const auto& f : rb->faults) why += f.reason + " ";
-            throw std::runtime_error("generator produced an invalid block where a valid one was intended: " + why);
+            throw GenError("generator produced an invalid block where a valid one was intended: " + why);
         }
         return rb;
     }
@@ -581,16 +587,16 @@ struct Hist {
             Prof p("led_add");
             return led.Add(blk, m);
         }();
-        if (!rb) throw std::runtime_error("adversarial block has no parent in the ledger: " + tag);
+        if (!rb) throw GenError("adversarial block has no parent in the ledger: " + tag);
         if (!led.ChainValid(rb->parent)) return rb;
         std::string got;
         for (const auto& f : rb->faults) got += f.reason + "@" + StageName(f.stage) + " ";
         if (reason.empty()) {
-            if (!rb->SelfValid()) throw std::runtime_error("gen/model disagree: '" + tag + "' intended valid, model says " + got);
+            if (!rb->SelfValid()) throw GenError("gen/model disagree: '" + tag + "' intended valid, model says " + got);
         } else {
             bool ok = false;
             for (const auto& f : rb->faults) ok = ok || f.reason == reason;
-            if (!ok) throw std::runtime_error("gen/model disagree: '" + tag + "' intended " + reason + ", model says " + (got.empty() ? "valid" : got));
+            if (!ok) throw GenError("gen/model disagree: '" + tag + "' intended " + reason + ", model says " + (got.empty() ? "valid" : got));
         }
         return rb;
     }
@@ -918,7 +924,7 @@ struct Hist {
                 s.cb.raw_script_sig = xcb.vin[0].scriptSig;
                 s.cb.raw_outputs = xcb.vout;
             });
-            if (blk->vtx[0]->GetHash() != xcb.GetHash()) throw std::runtime_error("duplicate coinbase does not reproduce the txid");
+            if (blk->vtx[0]->GetHash() != xcb.GetHash()) throw GenError("duplicate coinbase does not reproduce the txid");
             maybe_flush();
             if (want_ok) SendTagged(Register(blk, "dup-coinbase-respent", ""), "bip30_respent_acc", true);
             else SendTagged(Register(blk, "dup-coinbase", "bad-txns-BIP30"), "bip30_rej", true);
@@ -1179,13 +1185,13 @@ struct Hist {
         bool over_legacy_stage = false;
         for (const auto& f : rb_over->faults) over_legacy_stage = over_legacy_stage || f.stage == Stage::CHECKBLOCK;
         if (over_cost <= 80000 || over_cost > 80004 || (!over_legacy_stage && rb_over->sigop_cost != over_cost)) {
-            throw std::runtime_error("sigops-over block: generator cost " + std::to_string(over_cost) + ", model cost " + std::to_string(rb_over->sigop_cost));
+            throw GenError("sigops-over block: generator cost " + std::to_string(over_cost) + ", model cost " + std::to_string(rb_over->sigop_cost));
         }
         SendTagged(rb_over, "sigops_over_rej_" + last_place, true);
         auto at = build(false);
         RefBlock* rb_at = Register(at, "sigops-at-limit-" + last_place, "");
         if (expected_cost > 80000 || expected_cost < 79997 || rb_at->sigop_cost != expected_cost) {
-            throw std::runtime_error("sigops-at-limit block: generator cost " + std::to_string(expected_cost) + ", model cost " + std::to_string(rb_at->sigop_cost));
+            throw GenError("sigops-at-limit block: generator cost " + std::to_string(expected_cost) + ", model cost " + std::to_string(rb_at->sigop_cost));
         }
         SendTagged(rb_at, "sigops_at_limit_acc_" + last_place, true);
         if (node.TipHash() == rb_at->hash) {
@@ -1255,7 +1261,7 @@ struct Hist {
                     pad = (size_t)((int64_t)pad + dr);
                 }
             }
-            throw std::runtime_error("could not fit a block to the requested weight/size");
+            throw GenError("could not fit a block to the requested weight/size");
         };
         const int kind = (int)rng.below(3);
         if (kind == 0) {
@@ -1272,7 +1278,7 @@ struct Hist {
             SendTagged(over, "length_over_rej", true);
         }
         RefBlock* at = Register(fit(1, 4000000, -1), "weight-4000000", "");
-        if (at->weight != 4000000) throw std::runtime_error("at-limit block has model weight " + std::to_string(at->weight));
+        if (at->weight != 4000000) throw GenError("at-limit block has model weight " + std::to_string(at->weight));
         SendTagged(at, "weight_at_limit_acc", true);
         if (node.TipHash() == at->hash) Obs("weight_pair");
     }
@@ -1348,7 +1354,7 @@ struct Hist {
                 });
             };
             auto blk = mk(want);
-            if (blk->vtx[0]->vin[0].scriptSig.size() != want) throw std::runtime_error("coinbase scriptSig length construction failed");
+            if (blk->vtx[0]->vin[0].scriptSig.size() != want) throw GenError("coinbase scriptSig length construction failed");
             if (over) SendTagged(Register(blk, "cb-scriptsig-101", "bad-cb-length"), "cb_length_rej", true);
             else SendTagged(Register(blk, "cb-scriptsig-100", ""), "cb_length_acc", true);
             break;
@@ -1697,6 +1703,7 @@ VH_CMD(chainsim)
         default:            w = {20, 8, 2, 3, 3, 2, 3, 6, 6, 6, 6, 5}; break;
         }
         for (int a = 0; a < nact; ++a) {
+            try {
             switch (rng.weighted(w)) {
             case 0: h.Extend(1 + rng.below(2)); break;
             case 1: {
@@ -1715,6 +1722,10 @@ VH_CMD(chainsim)
             case 9: h.AdvTimelock(); break;
             case 10: h.AdvLimits(); break;
             case 11: h.InvalidBranch(); break;
+            }
+            } catch (const GenError& ex) {
+                h.Obs("generator_aborted_actions");
+                vh::log().rec(vh::J().str("harness_note", ex.what()).u("of_case", c).i("action", a));
             }
         }
         if (cls == Cls::VALUE || cls == Cls::MIXED) h.ValueRangeComponent();
